@@ -223,6 +223,19 @@ Definition remove (e : env) (s : state) (a : Z) : state * result :=
   | _ => set_cell e s0 a None
   end.
 
+(* Model.remove_all_agents:  for agent in list(self._agents.keys()): agent.remove()
+   (registration order = creation order = agent number; the first exception ends the loop) *)
+Fixpoint remove_list (e : env) (s : state) (l : list Z) : state * result :=
+  match l with
+  | [] => (s, Ok [])
+  | a :: t =>
+      let '(s1, r) := remove e s a in
+      match r with
+      | Ok _ => remove_list e s1 t
+      | _ => (s1, r)
+      end
+  end.
+
 (* ---------------------------------------------------------------- discrete_space.py / grid.py *)
 Definition cells_dom (e : env) : list Z := zrange 0 (e_ncells e - 1).
 Definition agents_dom (e : env) : list Z := zrange 1 (e_nagents e).
@@ -257,6 +270,7 @@ Inductive op :=
 | MoveRel (a : Z) (d : list Z)            (* a.move_relative(direction) *)
 | Move2D (a : Z) (name : list Z) (k : Z)  (* a.move(name, k) *)
 | Remove (a : Z)                          (* a.remove() *)
+| RemoveAll                               (* model.remove_all_agents() *)
 | RandomEmpty (try_random : bool) (outcome : option Z)            (* space.select_random_empty_cell() *)
 | PlaceRandomEmpty (a : Z) (try_random : bool) (outcome : option Z).  (* a.cell = space.select_random_empty_cell() *)
 
@@ -279,6 +293,7 @@ Definition step (e : env) (s : state) (o : op) : state * result :=
       then move2d e s a name k else (s, NotApplicable)
   | Remove a =>
       if in_agents e a then remove e s a else (s, NotApplicable)
+  | RemoveAll => remove_list e s (filter (reg s) (agents_dom e))
   | RandomEmpty tr out => (s, snd (random_empty e s tr out))
   | PlaceRandomEmpty a tr out =>
       if in_agents e a then
